@@ -178,20 +178,31 @@ class Findings:
     def __init__(self, path=FINDINGS):
         self.findings = []   # (prop, key-pattern, text)
         self.fixed = []
-        if os.path.exists(path):
+        self.exact = {}
+        paths = [path] + sorted(p for p in (os.path.join(VERIF, f) for f in os.listdir(VERIF))
+                                if os.path.basename(p).startswith("KNOWN_FINDINGS_") and p.endswith(".txt"))
+        for path in paths:
+            if not os.path.exists(path):
+                continue
             for line in open(path):
                 line = line.strip()
                 if not line or line.startswith("#"):
                     continue
                 m = re.match(r"finding:\s+property=(\S+)\s+key=(.+?)\s+::\s+(.*)$", line)
                 if m:
-                    self.findings.append((m.group(1), m.group(2).strip(), m.group(3)))
+                    pat = m.group(2).strip()
+                    if any(ch in pat for ch in "*?["):
+                        self.findings.append((m.group(1), pat, m.group(3)))
+                    else:
+                        self.exact[(m.group(1), pat)] = m.group(3)
                     continue
                 m = re.match(r"fixed:\s+property=(\S+)\s+(\S+)\s+(.*)$", line)
                 if m:
                     self.fixed.append((m.group(1), m.group(2), m.group(3)))
 
     def match(self, prop, key):
+        if (prop, key) in self.exact:
+            return key, self.exact[(prop, key)]
         for p, pat, text in self.findings:
             if p == prop and (pat == key or fnmatch.fnmatchcase(key, pat)):
                 return pat, text
